@@ -18,6 +18,8 @@ import (
 type class struct {
 	name string
 	mv   mapref.Value
+	// mvAt, when set, computes the model value from the live environment (the class whose number equals an object's address).
+	mvAt func(e *env) mapref.Value
 	js   []string
 	gop  []func(e *env) goja.Value
 }
@@ -137,6 +139,20 @@ var catalogue = []class{
 	{name: "lone-high-surrogate", mv: mapref.Str([]uint16{0xd800}),
 		js:  []string{`"\ud800"`, "String.fromCharCode(0xd800)", `"𐀀".charAt(0)`, `"𐀀".slice(0,1)`, `"𐀀"[0]`},
 		gop: []func(e *env) goja.Value{func(e *env) goja.Value { return goja.StringFromUTF16([]uint16{0xd800}) }}},
+	// Distinct keys with EQUAL hashes (goja: hash(int i) = uint64(i), hash(float f) = bits(f), hash(object) = its address):
+	// the denormal whose bit pattern is n collides with the integer n; an integer equal to an object's address collides
+	// with that object. These put several live entries into one hash bucket (chain insert / lookup / unlink).
+	{name: "denorm-bits-6", mv: mapref.Num(math.Float64frombits(6)),
+		js:  []string{"5e-324*6", "3e-323", "Number.MIN_VALUE*6", "new Float64Array(new Uint8Array([6,0,0,0,0,0,0,0]).buffer)[0]"},
+		gop: []func(e *env) goja.Value{tv(math.Float64frombits(6))}},
+	{name: "denorm-bits-10", mv: mapref.Num(math.Float64frombits(10)),
+		js:  []string{"5e-324*10", "Number.MIN_VALUE*10", "new Float64Array(new Uint8Array([10,0,0,0,0,0,0,0]).buffer)[0]"},
+		gop: []func(e *env) goja.Value{tv(math.Float64frombits(10))}},
+	{name: "denorm-bits-2pow32", mv: mapref.Num(math.Float64frombits(1 << 32)),
+		js:  []string{"5e-324*4294967296", "new Float64Array(new Uint32Array([0,1]).buffer)[0]"},
+		gop: []func(e *env) goja.Value{tv(math.Float64frombits(1 << 32))}},
+	{name: "int-equal-to-objA-address", mv: mapref.Num(123456789.25), mvAt: func(e *env) mapref.Value { return mapref.Num(float64(e.objAddr)) },
+		gop: []func(e *env) goja.Value{func(e *env) goja.Value { return e.r.ToValue(int64(e.objAddr)) }, func(e *env) goja.Value { return e.r.ToValue(float64(e.objAddr)) }, func(e *env) goja.Value { return e.r.ToValue(uint64(e.objAddr)) }}},
 	{name: "str-0", mv: mapref.StrASCII("0"),
 		js:  []string{`"0"`, "String(0)", "String(-0)", "(0).toString()", `""+0`},
 		gop: []func(e *env) goja.Value{tv("0")}},
